@@ -54,7 +54,25 @@ pub fn run(k: &str, c: &Value) -> Value {
                     Err(_) => json!({"panic": true}),
                 }
             }).collect()).unwrap_or_default();
-            json!({"section": section.points().iter().map(hp2).collect::<Vec<_>>(), "perimeter": hx(section.length()),
+            // the same section with its vertices in the opposite order (the results must not depend on it)
+            let rev = if c["also_reversed"].as_bool().unwrap_or(false) {
+                let mut rp = p2s(&c["pts"]); rp.reverse();
+                match Curve2::from_points(&rp, fx(&c["tol"]), c["closed"].as_bool().unwrap_or(true)) {
+                    Ok(rs) => {
+                        let orient: Box<dyn CamberOrient> = if c["orient"].is_string() { TMaxFwd::make() } else { DirectionFwd::make(v2(&c["orient"])) };
+                        let face = if c["face"].is_string() { FaceOrient::Detect } else { FaceOrient::UpperDir(v2(&c["face"])) };
+                        match std::panic::catch_unwind(std::panic::AssertUnwindSafe(|| AirfoilGeometry::try_analyze(&rs, fx(&c["core_tol"]), orient,
+                            edge_of(c["leading"].as_str().unwrap()), edge_of(c["trailing"].as_str().unwrap()), face))) {
+                            Ok(Ok(g2)) => json!({"le": edge(&g2.leading_edge), "te": edge(&g2.trailing_edge), "stations": g2.stations.len(), "camber_length": hx(g2.camber.length()),
+                                                 "tmax": circ(g2.find_tmax())}),
+                            Ok(Err(e)) => json!({"err": format!("{}", e)}),
+                            Err(_) => json!({"panic": true}),
+                        }
+                    }
+                    Err(_) => json!({"err": "section"}),
+                }
+            } else { Value::Null };
+            json!({"rev": rev, "section": section.points().iter().map(hp2).collect::<Vec<_>>(), "perimeter": hx(section.length()),
                    "stations": g.stations.iter().map(circ).collect::<Vec<_>>(), "le": edge(&g.leading_edge), "te": edge(&g.trailing_edge),
                    "camber": g.camber.points().iter().map(hp2).collect::<Vec<_>>(), "upper": cv(&g.upper), "lower": cv(&g.lower),
                    "tmax": circ(tmax), "thk_max": thk, "gauges": gauges,
